@@ -192,11 +192,17 @@ type c09File struct {
 }
 
 type c09Part struct {
+	cfSigs   map[string]string // violation kind -> signature seen in the crash-free run of this partition (from the recording)
 	Name     string
 	Files    []c09File
 	MaxBatch int
 	SortKeys []string
-	Quick    bool
+	// Quick: how the partition takes part in the quick tier ("" = thorough only):
+	//   full      crash-free + job-kill at EVERY fault point of the first hourly job + node-crash at one point per step kind
+	//   storage   crash-free + job-kill at every storage mutation of the first hourly job (no phase kills)
+	//   kinds     crash-free + job-kill at one fault point per distinct storage step kind of the first hourly job
+	//   crashfree crash-free only
+	Quick string
 }
 
 const (
@@ -217,7 +223,7 @@ func r(kv ...any) map[string]any {
 
 func c09Parts() []c09Part {
 	var ps []c09Part
-	plain := func(name string, n, maxBatch int, quick bool) c09Part {
+	plain := func(name string, n, maxBatch int, quick string) c09Part {
 		p := c09Part{Name: name, MaxBatch: maxBatch, Quick: quick}
 		for i := 0; i < n; i++ {
 			f := c09File{Hour: 5, Cols: []string{"time", "host", "v", "n"}}
@@ -236,9 +242,9 @@ func c09Parts() []c09Part {
 		}
 		return p
 	}
-	ps = append(ps, plain("plain6", 6, 4, true))
+	ps = append(ps, plain("plain6", 6, 4, "full"))
 	{
-		p := c09Part{Name: "tags6dup", MaxBatch: 4, Quick: true}
+		p := c09Part{Name: "tags6dup", MaxBatch: 4, Quick: "crashfree"}
 		for i := 0; i < 6; i++ {
 			f := c09File{Hour: 5, Cols: []string{"time", "host", "v"}, Tags: []string{"host"}}
 			f.Rows = append(f.Rows, r("time", 100+i, "host", "a", "v", float64(i)))
@@ -259,7 +265,7 @@ func c09Parts() []c09Part {
 		ps = append(ps, p)
 	}
 	{
-		p := c09Part{Name: "dedupt5", MaxBatch: 3, Quick: true}
+		p := c09Part{Name: "dedupt5", MaxBatch: 3, Quick: "crashfree"}
 		for i := 0; i < 5; i++ {
 			f := c09File{Hour: 5, Cols: []string{"time", "v"}, DedupTime: true}
 			f.Rows = append(f.Rows, r("time", 60*i, "v", float64(i)), r("time", 60*i+1))
@@ -273,6 +279,76 @@ func c09Parts() []c09Part {
 		}
 		ps = append(ps, p)
 	}
+	// --- class "the input files of one batch disagree on arc:tags" --------------------------------
+	// Six files in one hour, max 4 per batch: batch 1 = files 0-3 (split halves {0,1} {2,3} after a
+	// kill), batch 2 = files 4,5; the daily job then merges the two outputs. Rows at second 500/600/
+	// 800 agree on host+time (the NARROWER key) and differ only in a tag that some other file of the
+	// measurement does not declare: inside batch 1, between the batches (they meet in the daily job),
+	// inside batch 2. Rows at second 700 are TRUE duplicates (no NULL tag) inside and across batches.
+	// A column that is a tag somewhere is carried only by files that declare it (or, for host, by
+	// files without any tag metadata), so a file's own declaration is never wider than its columns.
+	hr, h_, hd := []string{"host", "region"}, []string{"host"}, []string{"host", "dc"}
+	tagPart := func(name, quick string, maxBatch int, tags [][]string, rows [][]map[string]any) c09Part {
+		p := c09Part{Name: name, MaxBatch: maxBatch, Quick: quick}
+		for i := range tags {
+			f := c09File{Hour: 5, Cols: []string{"time", "host"}, Tags: tags[i]}
+			for _, t := range tags[i] {
+				if t != "host" {
+					f.Cols = append(f.Cols, t)
+				}
+			}
+			f.Cols = append(f.Cols, "v")
+			for j, row := range rows[i] {
+				row["v"] = float64(100*i + j)
+				f.Rows = append(f.Rows, row)
+			}
+			p.Files = append(p.Files, f)
+		}
+		return p
+	}
+	shrinkTags := [][]string{hr, hr, hr, h_, hr, h_}
+	shrinkRows := func() [][]map[string]any {
+		return [][]map[string]any{
+			{r("time", 500, "host", "h1", "region", "us"), r("time", 700, "host", "h2", "region", "us"), r("time", 10, "host", "a", "region", "us")},
+			{r("time", 500, "host", "h1", "region", "eu"), r("time", 11, "host", "a", "region", "us")},
+			{r("time", 600, "host", "h1", "region", "us"), r("time", 700, "host", "h2", "region", "us")},
+			{r("time", 500, "host", "h1"), r("time", 600, "host", "h1"), r("time", 13, "host", "a")},
+			{r("time", 600, "host", "h1", "region", "eu"), r("time", 800, "host", "h1", "region", "us"), r("time", 800, "host", "h1", "region", "eu"), r("time", 700, "host", "h2", "region", "us")},
+			{r("time", 800, "host", "h1"), r("time", 15, "host", "a")},
+		}
+	}
+	// tag set SHRINKS: older files [host,region], the newest file of each batch [host] (a dropped tag / a second writer)
+	ps = append(ps, tagPart("tagshrink6", "storage", 4, shrinkTags, shrinkRows()))
+	// tag set GROWS: older files [host], newer files [host,region] (ordinary schema evolution)
+	ps = append(ps, tagPart("taggrow6", "kinds", 4, [][]string{h_, h_, hr, hr, hr, hr}, [][]map[string]any{
+		{r("time", 500, "host", "h1"), r("time", 10, "host", "a")},
+		{r("time", 600, "host", "h1"), r("time", 700, "host", "h2")},
+		{r("time", 500, "host", "h1", "region", "us"), r("time", 700, "host", "h2", "region", "us")},
+		{r("time", 500, "host", "h1", "region", "eu"), r("time", 700, "host", "h2", "region", "us")},
+		{r("time", 500, "host", "h1", "region", "ap"), r("time", 600, "host", "h1", "region", "us"), r("time", 600, "host", "h1", "region", "eu")},
+		{r("time", 700, "host", "h2", "region", "us"), r("time", 15, "host", "a", "region", "us")},
+	}))
+	// DISJOINT-OVERLAPPING tag sets: two writers, [host,region] and [host,dc] (every row has a NULL tag, so no true duplicates here)
+	ps = append(ps, tagPart("tagdisjoint6", "kinds", 4, [][]string{hr, hd, hr, hd, hd, hr}, [][]map[string]any{
+		{r("time", 500, "host", "h1", "region", "us"), r("time", 700, "host", "h2", "region", "us")},
+		{r("time", 500, "host", "h1", "dc", "d1"), r("time", 710, "host", "h2", "dc", "d1")},
+		{r("time", 500, "host", "h1", "region", "eu"), r("time", 12, "host", "a", "region", "us")},
+		{r("time", 500, "host", "h1", "dc", "d2"), r("time", 600, "host", "h1", "dc", "d1")},
+		{r("time", 600, "host", "h1", "dc", "d2"), r("time", 600, "host", "h1", "dc", "d3"), r("time", 500, "host", "h1", "dc", "d3")},
+		{r("time", 600, "host", "h1", "region", "us"), r("time", 500, "host", "h1", "region", "ap")},
+	}))
+	// a file WITHOUT arc:tags between two that have it; the newest file of batch 1 has none either
+	ps = append(ps, tagPart("taggap6", "kinds", 4, [][]string{hr, nil, h_, nil, hr, nil}, [][]map[string]any{
+		{r("time", 500, "host", "h1", "region", "us"), r("time", 500, "host", "h1", "region", "eu"), r("time", 700, "host", "h2", "region", "us")},
+		{r("time", 500, "host", "h1"), r("time", 20, "host", "b")},
+		{r("time", 600, "host", "h1"), r("time", 700, "host", "h2")},
+		{r("time", 30, "host", "b"), r("time", 600, "host", "h2")},
+		{r("time", 600, "host", "h1", "region", "us"), r("time", 600, "host", "h1", "region", "eu"), r("time", 700, "host", "h2", "region", "us")},
+		{r("time", 40, "host", "b")},
+	}))
+	// the shrinking partition cut into batches of 2: {0,1} agree, {2,3} and {4,5} disagree; the rows that differ only
+	// in region now sit in DIFFERENT batches and meet only in the daily job, which merges three outputs with two tag sets
+	ps = append(ps, tagPart("tagshrink6b2", "crashfree", 2, shrinkTags, shrinkRows()))
 	{
 		p := c09Part{Name: "nulltags4", MaxBatch: 2}
 		for i := 0; i < 4; i++ {
@@ -334,7 +410,7 @@ func c09Parts() []c09Part {
 		}
 		ps = append(ps, p)
 	}
-	ps = append(ps, plain("plain3", 3, 4, false))
+	ps = append(ps, plain("plain3", 3, 4, ""))
 	{
 		p := c09Part{Name: "tags4", MaxBatch: 4}
 		for i := 0; i < 4; i++ {
@@ -351,7 +427,7 @@ func c09Parts() []c09Part {
 		ps = append(ps, p)
 	}
 	{
-		p := plain("twohours", 6, 3, false)
+		p := plain("twohours", 6, 3, "")
 		for i := 3; i < 6; i++ {
 			p.Files[i].Hour = 6
 		}
@@ -366,9 +442,9 @@ func c09Parts() []c09Part {
 		}
 		ps = append(ps, p)
 	}
-	ps = append(ps, plain("plain12", 12, 5, false))
+	ps = append(ps, plain("plain12", 12, 5, ""))
 	{
-		p := plain("sortkeys6", 6, 4, false)
+		p := plain("sortkeys6", 6, 4, "")
 		p.SortKeys = []string{"host", "time"}
 		ps = append(ps, p)
 	}
@@ -382,6 +458,18 @@ func (p *c09Part) dedup() bool {
 		}
 	}
 	return false
+}
+
+// tagsDiffer: at least two files of the partition declare different arc:tags sets (a file without the key
+// counts as a different set when another file has one).
+func (p *c09Part) tagsDiffer() bool {
+	seen := map[string]bool{}
+	for _, f := range p.Files {
+		t := append([]string{}, f.Tags...)
+		sort.Strings(t)
+		seen[strings.Join(t, ",")] = true
+	}
+	return len(seen) > 1 && len(p.tagUnion()) > 0
 }
 
 func (p *c09Part) tagUnion() []string {
@@ -427,7 +515,7 @@ func (p *c09Part) build() ([]c09Fixture, int) {
 					val[j] = true
 				}
 				cols[c] = xs
-			case "host", "region", "s":
+			case "host", "region", "dc", "s":
 				xs := make([]string, n)
 				for j, row := range f.Rows {
 					if v, ok := row[c]; ok {
@@ -603,6 +691,7 @@ type c09Scn struct {
 }
 
 type c09Rec struct {
+	CFSigs map[string]string `json:"crash_free_violations"`
 	Part   string      `json:"part"`
 	Jobs   []c09JobLog `json:"jobs"`
 	Inproc []vos.Op    `json:"inproc"`
@@ -638,11 +727,12 @@ type c09Env struct {
 	before *c09Obs
 	tags   []string
 	faults []c09Fault
+	cfSigs map[string]string // crash-free run: violation kind -> signature
 }
 
 func (w *c09Worker) newEnv(p *c09Part, fx []c09Fixture) *c09Env {
 	w.caseN++
-	e := &c09Env{w: w, part: p, dir: filepath.Join(w.scratch, fmt.Sprintf("case%d", w.caseN)), tags: p.tagUnion()}
+	e := &c09Env{w: w, part: p, dir: filepath.Join(w.scratch, fmt.Sprintf("case%d", w.caseN)), tags: p.tagUnion(), cfSigs: map[string]string{}}
 	e.store, e.tmp, e.plan = filepath.Join(e.dir, "store"), filepath.Join(e.dir, "tmp"), filepath.Join(e.dir, "plan")
 	os.RemoveAll(e.dir)
 	os.MkdirAll(e.tmp, 0o700)
@@ -764,8 +854,21 @@ func (e *c09Env) judge(s *c09Scn, at string, o *c09Obs, exact bool) {
 		} else {
 			shape += ",plain"
 		}
+		if e.part.tagsDiffer() {
+			shape += ",tagsets-differ"
+		}
 		sig := strings.Join([]string{kind, at, s.Mode, s.Job, s.Label, shape}, "|")
-		desc = fmt.Sprintf("%s [smallest way to see it: partition %s, %s at call %d (%s %s)]", desc, s.Part, s.Mode, s.Fault.K, s.Op.Kind, filepath.Base(s.Op.Path))
+		if s.Mode == "crash-free" {
+			e.cfSigs[kind] = sig
+			desc = fmt.Sprintf("%s [no fault needed: partition %s, crash-free cycles]", desc, s.Part)
+		} else if cf := e.part.cfSigs[kind]; cf != "" {
+			// minimisation: the crash-free run of this partition already shows this kind of violation, so the fault is
+			// not part of the counterexample: one class, the crash-free one
+			sig = cf
+			desc = fmt.Sprintf("%s [no fault needed: the crash-free run of partition %s shows it too; seen again with %s at %s]", desc, s.Part, s.Mode, s.Label)
+		} else {
+			desc = fmt.Sprintf("%s [smallest way to see it: partition %s, %s at call %d (%s %s)]", desc, s.Part, s.Mode, s.Fault.K, s.Op.Kind, filepath.Base(s.Op.Path))
+		}
 		e.w.run.Violate(sig, desc, map[string]any{"scenario": s, "observed_at": at, "rows": c09Few(rows), "files_now": o.Files,
 			"rows_before": b.Total, "rows_now": o.Total, "jobs": c09Brief(e.jobLogs())})
 	}
@@ -830,10 +933,10 @@ func c09Brief(ls []c09JobLog) []string {
 }
 
 // laterCycles runs cycles 2h apart until one changes nothing (at most 3), judging after each.
-func (e *c09Env) laterCycles(s *c09Scn, m *compaction.Manager) {
+// prev is the observation made after the preceding step (nothing touches the store in between).
+func (e *c09Env) laterCycles(s *c09Scn, m *compaction.Manager, prev *c09Obs) {
 	for c := 1; c <= 3; c++ {
 		vclock.Jump(2 * time.Hour)
-		prev := c09Scan(e.w.duck, e.store, e.tags)
 		if prev.Manifest > 0 {
 			e.w.ctr["later_cycles_starting_with_a_pending_manifest"]++
 		}
@@ -852,6 +955,7 @@ func (e *c09Env) laterCycles(s *c09Scn, m *compaction.Manager) {
 		if c == 3 {
 			e.w.ctr["not_quiescent_after_3_later_cycles"]++
 		}
+		prev = o
 	}
 }
 
@@ -861,10 +965,8 @@ func (w *c09Worker) runScenario(p *c09Part, fx []c09Fixture, s *c09Scn) {
 	w.ctr["evals"]++
 	w.ctr["evals_"+s.Mode]++
 	m := e.manager()
+	var o *c09Obs
 	switch s.Mode {
-	case "crash-free":
-		e.cycle(m)
-		e.judge(s, "after-first-cycle", c09Scan(w.duck, e.store, e.tags), true)
 	case "job-kill", "job-error":
 		e.faults = []c09Fault{s.Fault}
 		e.cycle(m)
@@ -887,7 +989,8 @@ func (w *c09Worker) runScenario(p *c09Part, fx []c09Fixture, s *c09Scn) {
 		if split {
 			w.ctr["scenarios_with_adaptive_split_retry"]++
 		}
-		e.judge(s, "after-crash-cycle", c09Scan(w.duck, e.store, e.tags), false)
+		o = c09Scan(w.duck, e.store, e.tags)
+		e.judge(s, "after-crash-cycle", o, false)
 	case "node-crash":
 		e.faults = []c09Fault{s.Fault}
 		cand, ok := e.firstBatch(m, s.Fault.Partition)
@@ -906,7 +1009,8 @@ func (w *c09Worker) runScenario(p *c09Part, fx []c09Fixture, s *c09Scn) {
 			ev.Unbound("C09: a killed job was not reported as 'signal: killed': " + fmt.Sprint(err))
 		}
 		w.ctr["nontrivial"]++
-		e.judge(s, "crash-state", c09Scan(w.duck, e.store, e.tags), false)
+		o = c09Scan(w.duck, e.store, e.tags)
+		e.judge(s, "crash-state", o, false)
 		m = e.manager() // the parent died too: fresh process state
 	case "inproc-error":
 		cand, ok := e.firstBatch(m, s.Fault.Partition)
@@ -920,9 +1024,12 @@ func (w *c09Worker) runScenario(p *c09Part, fx []c09Fixture, s *c09Scn) {
 			return
 		}
 		w.ctr["nontrivial"]++
-		e.judge(s, "after-failed-job", c09Scan(w.duck, e.store, e.tags), false)
+		o = c09Scan(w.duck, e.store, e.tags)
+		e.judge(s, "after-failed-job", o, false)
+	default:
+		ev.Unbound("C09: unknown scenario mode " + s.Mode)
 	}
-	e.laterCycles(s, m)
+	e.laterCycles(s, m, o)
 	w.samples.Add(map[string]any{"scenario": s, "jobs": c09Brief(e.jobLogs())})
 }
 
